@@ -230,7 +230,9 @@ func c20Find(c *Ctx, cs *C20Case, r *Rng, out *CaseOut, wantSig string) []c20Fai
 		return nil
 	}
 	base := &FaultWriter{K: -1}
+	stepsBefore := simrt.Steps
 	bres := x.run(base)
+	baseSteps := int(simrt.Steps - stepsBefore)
 	if c != nil {
 		c.logf("base: %s W=%d", bres.Key(), len(base.Calls))
 	}
@@ -315,7 +317,26 @@ func c20Find(c *Ctx, cs *C20Case, r *Rng, out *CaseOut, wantSig string) []c20Fai
 			}
 		}
 	}
-	for _, f := range c20Plan(r, base.Calls) {
+	plan := c20Plan(r, base.Calls)
+	// A step budget per case (about 30M step points): where one render is expensive, the plan
+	// is thinned evenly over the write indices instead of being enumerated in full.
+	if maxExec := 30_000_000 / (baseSteps + 1); maxExec < len(plan) {
+		if maxExec < 60 {
+			maxExec = 60
+		}
+		if maxExec < len(plan) {
+			thin := make([]c20Fail, 0, maxExec)
+			for i := 0; i < maxExec; i++ {
+				thin = append(thin, plan[i*len(plan)/maxExec])
+			}
+			if c != nil {
+				c.count("fault_plan_thinned_cases", 1)
+				c.count("fault_plan_executions_left_out", int64(len(plan)-len(thin)))
+			}
+			plan = thin
+		}
+	}
+	for _, f := range plan {
 		w := &FaultWriter{K: f.k, Accept: f.accept, Sticky: f.sticky}
 		res := x.run(w)
 		out.Evals++
